@@ -40,7 +40,21 @@ func (o op) String() string {
 
 func bname(b int) []byte { return []byte{'b', byte('0' + b)} }
 func key(k int) []byte   { return []byte{byte(k >> 8), byte(k)} }
-func val(v int) []byte   { return []byte(strconv.Itoa(v)) }
+// val renders a value id; id 0 is the EMPTY (zero-length, non-nil) value, which the chain store
+// does write (an expiration list that became empty) and which must stay distinguishable from "absent".
+func val(v int) []byte {
+	if v == 0 {
+		return []byte{}
+	}
+	return []byte(strconv.Itoa(v))
+}
+
+func valStr(v []byte) string {
+	if len(v) == 0 {
+		return "0"
+	}
+	return string(v)
+}
 
 // reference map (the oracle's ground truth)
 type ref struct {
@@ -195,7 +209,7 @@ func (be *backend) apply(o op) (out string) {
 		if v == nil {
 			return "val none"
 		}
-		return "val " + string(v)
+		return "val " + valStr(v)
 	case "iter":
 		type kv struct {
 			k []byte
@@ -203,7 +217,7 @@ func (be *backend) apply(o op) (out string) {
 		}
 		var kvs []kv
 		for k, v := range bk.Iter() {
-			kvs = append(kvs, kv{append([]byte(nil), k...), string(v)})
+			kvs = append(kvs, kv{append([]byte(nil), k...), valStr(v)})
 		}
 		sort.Slice(kvs, func(i, j int) bool { return bytes.Compare(kvs[i].k, kvs[j].k) < 0 })
 		var sb strings.Builder
@@ -320,7 +334,8 @@ func Run(r *vh.Run) {
 
 	// exhaustive over a small alphabet: MemDB and CacheDB(MemDB) (pure Go, fast)
 	alpha := alphabet(1, 2, 1)
-	alpha = append(alpha, op{kind: "create", b: 1}, op{kind: "put", b: 1, k: 1, v: 2}, op{kind: "iter", b: 1}, op{kind: "put", b: 0, k: 1, v: 2})
+	alpha = append(alpha, op{kind: "create", b: 1}, op{kind: "put", b: 1, k: 1, v: 2}, op{kind: "iter", b: 1}, op{kind: "put", b: 0, k: 1, v: 2},
+		op{kind: "put", b: 0, k: 1, v: 0}) // the empty value
 	depth := r.Pick(5, 6)
 	boltDepth := r.Pick(3, 5)
 	r.Extra("exhaustive_alphabet", len(alpha))
@@ -365,7 +380,7 @@ func Run(r *vh.Run) {
 			case x < 6:
 				s[j] = op{kind: "create", b: rng.Intn(3)}
 			case x < 40:
-				s[j] = op{kind: "put", b: rng.Intn(3), k: 1 + rng.Intn(6), v: 1 + rng.Intn(4)}
+				s[j] = op{kind: "put", b: rng.Intn(3), k: 1 + rng.Intn(6), v: rng.Intn(5)}
 			case x < 58:
 				s[j] = op{kind: "del", b: rng.Intn(3), k: 1 + rng.Intn(6)}
 			case x < 75:
@@ -385,7 +400,7 @@ func Run(r *vh.Run) {
 	runStoreHistories(r, rng.Fork(), dir)
 	r.Assume("bbolt is not modelled: BoltChainDB is compared with the abstract Spec and the reference map only")
 	r.Assume("bucket handles are re-fetched for every operation (as DBStore.bucket does)")
-	r.Assume("values are non-empty byte strings (nil/empty values are not distinguished by the interface)")
+	r.Assume("value id 0 is the empty (zero-length, non-nil) byte string; nil values are never put")
 }
 
 // minimised failures found on the pinned tree (kept as regression inputs)
